@@ -209,6 +209,17 @@ func runC20(c *core.Ctx) {
 							}
 						}
 						gb.AppendSample(mon.Canary(t.TypeInfo, round, 5))
+						if round == 1 {
+							// a foreign, filled buffer of another total capacity is offered
+							// to the pool in between: whatever Put answers, the pool keeps
+							// handing out inert buffers
+							foreign := t.Alloc(signal.Allocator{Channels: 1, Length: g.ch*g.k + 3, Capacity: g.ch*g.k + 3})
+							for i := 0; i < foreign.Len(); i++ {
+								foreign.SetSample(i, mon.Canary(t.TypeInfo, i, 6))
+							}
+							core.Guard(func() { pool.Put(foreign) })
+							c.Obs("foreign_buffers_offered_to_degenerate_pools", 1)
+						}
 						pool.Put(gb)
 					}
 				})
